@@ -295,26 +295,59 @@ def rule_sites(ctx):
             a = strip(arg_of(c))
             key = "%s#%d" % (hq.last(dp, 2), i)
             r = hq.render(a)
+            lets_ = hq.let_by_id(b["body"])
+            pnames = [p_.get("name") for p_ in b.get("params", [])]
+
+            def init_of(x):
+                lid = hq.local_id_of(x) if hasattr(hq, "local_id_of") else None
+                from ..facts import local_id_of as _lid
+                lid = _lid(x)
+                n_ = lets_.get(lid)
+                return n_.get("init") if n_ else None
+            triples = []
+            for n_ in walk(b["body"]):
+                if n_.get("p") == "Tuple" and len(n_.get("pats", [])) == 3 and all(q.get("p") == "Bind" for q in n_["pats"][:2]):
+                    triples.append((n_["pats"][0]["id"], n_["pats"][1]["id"]))
             if dp.endswith("Formula::substitute"):
-                if local_of(a) == "term":
+                if local_of(a) is not None and len(pnames) == 3 and local_of(a) == pnames[2]:
                     ctx.ok("SITES", key, ctx.site(b, c), "recursive call passes the caller's own (variable, term) pair", nontrivial=False)
                 else:
                     raw = arg_of(c)
                     intos = [n for n in walk(raw) if n.get("k") == "MethodCall" and n["method"] == "into" and strip(n["recv"]).get("ty", "").endswith("sigma_0::Variable")]
-                    ok = len(intos) == 1 and local_of(a) == "fresh_variable"
+                    ok = len(intos) == 1 and local_of(a) is not None and str(a.get("ty", "")).endswith("sigma_0::Variable")
                     ctx.add("SITES", key, ok, ctx.site(b, c), "renaming passes Variable.into(): a variable term of the binder's own sort (sequence keeps the sort): %s" % r)
             elif "inductive_lemma" in dp:
                 s_ = repr(sym.Eval(fx, inline_depth=0).function(b))
-                ok = local_of(a) in ("least_term", "successor") and "('ctor', 'GeneralTerm::IntegerTerm'" in s_ and "Sort::Integer" in s_
+                ini = init_of(a)
+                ok = ini is not None and "IntegerTerm" in hq.render(ini) and "('ctor', 'GeneralTerm::IntegerTerm'" in s_ and "Sort::Integer" in s_
                 ctx.add("SITES", key, ok, ctx.site(b, c), "the integer induction variable is replaced by an integer term (numeral / successor): %s" % r)
             elif "substitute_defined_variables" in dp:
-                ok = local_of(a) == "definition"
+                from ..facts import local_id_of as _lid2, pat_bindings as _pb
+                def_ids = set()
+                for n_ in walk(b["body"]):
+                    if n_.get("k") in ("Let", "LetStmt") and "init" in n_ and hq.calls(n_["init"], "find_definition"):
+                        def_ids |= {q["id"] for q in _pb(n_["pat"])}
+                    if n_.get("k") == "Match" and hq.calls(n_.get("scrut", {}), "find_definition"):
+                        for a_ in n_["arms"]:
+                            def_ids |= {q["id"] for q in _pb(a_["pat"])}
+                ok = _lid2(a) in def_ids
                 ctx.add("SITES", key, ok, ctx.site(b, c), "the definition comes from find_definition, whose sort table only returns integer terms for integer variables and symbolic terms for symbol variables")
             elif "replacement_helper" in dp:
-                ok = local_of(a) == "fvar_term" and "ovar" in hq.render(var_of(c))
+                ini = init_of(a)
+                vroot = hq._root_local(var_of(c))
+                ok = ini is not None and "GeneralTerm::IntegerTerm" in hq.render(ini) and "IntegerTerm::Variable" in hq.render(ini) and len(pnames) >= 2 and vroot is not None and local_of(vroot) == pnames[1]
                 ctx.add("SITES", key, ok, ctx.site(b, c), "a *general* variable (ovar) is replaced by an integer variable term: always compatible")
             elif "simplify_transitive_equality" in dp:
-                ok = local_of(a) == "keep" and local_of(var_of(c)) == "drop_var"
+                from ..facts import local_id_of as _lid3
+                ini = init_of(a)
+                vid = _lid3(var_of(c))
+                hit = [t_ for t_ in triples if t_[1] == vid]
+                keep_names = set()
+                for t_ in hit:
+                    for n_ in walk(b["body"]):
+                        if n_.get("p") == "Bind" and n_.get("id") == t_[0]:
+                            keep_names.add(n_.get("name"))
+                ok = bool(hit) and ini is not None and any(kn and kn in hq.render(ini) for kn in keep_names)
                 ctx.add("SITES", key, ok, ctx.site(b, c), "drop_var is replaced by the keep variable's term; transitive_equality only returns pairs with sort(keep) a subsort of sort(drop)")
             else:
                 ctx.bad("SITES", key, ctx.site(b, c), "unknown caller of Formula::substitute: sort compatibility of %s is not established" % r)
